@@ -150,6 +150,11 @@ theorem C07_failed_call_changes_nothing (s : Schema) (ops : List Op) (op : Op)
     (step s (run s Db.empty ops) op).1 = run s Db.empty ops :=
   step_throw_unchanged s (inv_run s ops inv_empty) op hr
 
+/-- non-vacuity: calls that fail — a duplicate root name, a rename of a removed crate. -/
+example : (step .schema_1_9_1 (run .schema_1_9_1 Db.empty [.createRoot [97]]) (.createRoot [97])).2.isOk = false ∧
+    (step .schema_1_9_1 (run .schema_1_9_1 Db.empty [.createRoot [97], .removeCrate 1]) (.rename 1 [98])).2.isOk = false := by
+  decide +kernel
+
 /-- "a re-parenting that would create a cycle is rejected leaving the forest unchanged": under itself or
 under any of its descendants, in every reachable state. -/
 theorem C07_cycle_reparent_rejected (s : Schema) (ops : List Op) (c q : Id)
